@@ -367,6 +367,12 @@ func GenTypes(t *rapid.T, o *Opts) *Spec {
 	if o.Aliases && rapid.IntRange(0, 4).Draw(t, "alias") == 0 {
 		g.addAlias(root)
 	}
+	if o.EnumStress && rapid.IntRange(0, 3).Draw(t, "untypedConsts") == 0 {
+		root.Files[0].Consts = append(root.Files[0].Consts, &Block{Grouped: true, Specs: []*ConstSpec{
+			{Names: []string{g.constName(root, "Untyped", 0, true, "untypedName")}, Exprs: []string{"1"}, Vals: []string{"1"}, OfType: []string{""}, Comment: "not a typed constant"},
+			{Names: []string{g.constName(root, "Untyped", 1, true, "untypedName2")}, Exprs: []string{`"s"`}, Vals: []string{`"s"`}, OfType: []string{""}},
+		}})
+	}
 	g.regroup(root.Files[0])
 	// drop the sibling file if it stayed empty
 	if len(root.Files[1].Decls) == 0 && len(root.Files[1].Consts) == 0 && root.Files[1].Raw == "" {
@@ -428,7 +434,13 @@ func (g *gen) fillPackage(pkg *Pkg, file, other *File, n int, isRoot bool) {
 					hasGeneric = true
 				}
 			}
-			if !hasGeneric {
+			zero := false
+			for _, ti := range g.types {
+				if ti.cat == "union" && ti.pkg == pkg && len(ti.d.Methods) == 0 && len(ti.d.Embeds) == 0 {
+					zero = true
+				}
+			}
+			if !hasGeneric && !zero {
 				g.addGeneric(pkg, other, file)
 			}
 		}
@@ -491,6 +503,16 @@ func (g *gen) addRecursion(pkg *Pkg) {
 	a.d.Fields = append(a.d.Fields, &Field{Name: "Children", Type: mk(b, "recKindA")})
 	if b != a {
 		b.d.Fields = append(b.d.Fields, &Field{Name: "Parents", Type: mk(a, "recKindB")})
+	}
+	if g.embeddedInCycle(pkg) && g.o.gated("embedded_struct_in_cycle") {
+		// repair: drop the back-edges again
+		a.d.Fields = a.d.Fields[:len(a.d.Fields)-1]
+		if b != a {
+			b.d.Fields = b.d.Fields[:len(b.d.Fields)-1]
+		}
+		return
+	}
+	if b != a {
 		g.o.class("graph:mutual_recursion")
 	} else {
 		g.o.class("graph:self_recursion")
@@ -575,4 +597,73 @@ func (g *gen) pruneUnusedPkgs() {
 		}
 	}
 	g.spec.Pkgs = keep
+}
+
+// embeddedInCycle reports whether some struct S embeds a struct E such that E reaches S
+// (E is then still incomplete when S is analysed).
+func (g *gen) embeddedInCycle(pkg *Pkg) bool {
+	unions := g.spec.Unions()[pkg.Path]
+	decls := map[string]*Decl{}
+	for _, f := range pkg.Files {
+		for _, d := range f.Decls {
+			decls[d.Name] = d
+		}
+	}
+	var refs func(t *TypeRef, out *[]string)
+	refs = func(t *TypeRef, out *[]string) {
+		if t == nil {
+			return
+		}
+		if t.K == TRef && (t.Pkg == "" || t.Pkg == pkg.Path) {
+			*out = append(*out, t.Name)
+		}
+		refs(t.Elem, out)
+		refs(t.Key, out)
+		for _, a := range t.Args {
+			refs(a, out)
+		}
+	}
+	succ := func(name string) []string {
+		d := decls[name]
+		if d == nil {
+			return nil
+		}
+		var out []string
+		refs(d.Type, &out)
+		for _, f := range d.Fields {
+			refs(f.Type, &out)
+		}
+		if d.Kind == KUnion {
+			if u := unions[d.Name]; u != nil {
+				out = append(out, u.Members...)
+			}
+		}
+		return out
+	}
+	reaches := func(from, to string) bool {
+		seen := map[string]bool{}
+		stack := []string{from}
+		for len(stack) > 0 {
+			n := stack[len(stack)-1]
+			stack = stack[:len(stack)-1]
+			for _, s := range succ(n) {
+				if s == to {
+					return true
+				}
+				if !seen[s] {
+					seen[s] = true
+					stack = append(stack, s)
+				}
+			}
+		}
+		return false
+	}
+	for _, d := range decls {
+		for _, f := range d.Fields {
+			if f.Embedded && f.Type.K == TRef && reaches(f.Type.Name, d.Name) {
+				return true
+			}
+		}
+	}
+	return false
 }
